@@ -203,9 +203,16 @@ func cntEntryOf(e *dispatchertypes.DispatchCountEntry) AmtEntry {
 func (r *Runner) doQuery(ctx sdk.Context, ln *Line) {
 	w := r.w
 	q := ln.In.Q
-	gs := func(k string) string { s, _ := q[k].(string); return s }
-	gi := func(k string) int64 { f, _ := q[k].(float64); return int64(f) }
-	gb := func(k string) bool { b, _ := q[k].(bool); return b }
+	gs := func(k string) string {
+		return map[string]string{"kind": q.Kind, "by": q.By, "pid": q.Pid, "walk": q.Walk, "sp": q.Sp, "sc": q.Sc, "dp": q.Dp, "dc": q.Dc, "denom": q.Denom}[k]
+	}
+	gi := func(k string) int64 { return q.Limit }
+	gb := func(k string) bool {
+		if k == "reverse" {
+			return q.Reverse
+		}
+		return q.CountTotal
+	}
 	kind, by := gs("kind"), gs("by")
 	pages := []PageObs{}
 	ln.Res = Res{Ack: "ok"}
